@@ -7,6 +7,7 @@ from common import Failure, q, z, coq_list, coq_opt, coq_bool
 
 ID = "C20"
 GEN = []
+MODEL_INDEPENDENT_OF_PROOFS = True   # Model/Jets*.v contain no proofs: the correspondence runs even when a proof breaks
 ALLOWED_AXIOMS = []
 TRUSTED = [
     "Coq 8.16.1 kernel + vm_compute (no native_compute)",
@@ -689,6 +690,15 @@ def correspondence(ctx, model_ok=True):
                    "columns exactly or within 1e-9)",
            "samples": cases[:2], "model_runner": "Eval vm_compute in generated cases files (sharded coqc)",
            "failures": [], "broken": []}
+    # generator self-test: a category that is never reached says nothing about its branch
+    required = ["prior:none", "prior:empty", "prior:foreign", "prior:old jet rows", "calls:2", "jetless:first",
+                "jetless:middle", "jetless:last", "jetless:all", "jetless:none", "boundary dR==R", "boundary eta==limit",
+                "boundary pT==bound", "particle exactly on the cone edge", "eta limits swapped", "pT limits swapped",
+                "eta limit None", "pT limit None", "charged_only", "all_assoc", "alg:antikt", "alg:kt", "alg:cambridge",
+                "call raised ValueError", "jets with holes in cone", "jets with neutral holes in cone"]
+    missing = [k for k in required if not dist.get(k)]
+    if missing:
+        out["broken"].append({"what": "generator self-test: input categories never reached", "detail": missing})
     # structural checks that need no model: the two getters split what read_jet_data returned
     for c, g in zip(cases, gots):
         rd = g["read"]
